@@ -93,27 +93,37 @@ func (orderedMap *Map[K, V]) Len() int {
 	return len(orderedMap.order)
 }
 
+// Iterate calls the callback for every live key, in order. The callback may
+// use the map itself: a key removed before it is reached is not produced, and
+// no key is produced twice (the keys are walked on a snapshot of their order).
 func (orderedMap *Map[K, V]) Iterate(callback func(key K, value V)) {
-	for _, key := range orderedMap.order {
-		callback(key, orderedMap.records[key])
+	keys := append([]K(nil), orderedMap.order...)
+
+	for _, key := range keys {
+		value, live := orderedMap.records[key]
+		if !live {
+			continue
+		}
+
+		callback(key, value)
 	}
 }
 
 func (orderedMap *Map[K, V]) Map(callback func(key K, value V) V) *Map[K, V] {
 	newMap := New[K, V]()
-	for _, key := range orderedMap.order {
-		newMap.Set(key, callback(key, orderedMap.records[key]))
-	}
+	orderedMap.Iterate(func(key K, value V) {
+		newMap.Set(key, callback(key, value))
+	})
 	return newMap
 }
 
 func (orderedMap *Map[K, V]) Filter(callback func(key K, value V) bool) *Map[K, V] {
 	newMap := New[K, V]()
-	for _, key := range orderedMap.order {
-		if callback(key, orderedMap.records[key]) {
-			newMap.Set(key, orderedMap.records[key])
+	orderedMap.Iterate(func(key K, value V) {
+		if callback(key, value) {
+			newMap.Set(key, value)
 		}
-	}
+	})
 	return newMap
 }
 
